@@ -31,7 +31,7 @@ structure Req where
   wk : Bool := false              -- reqWork
   rs : Bool := false              -- reqResponded
   sv : Bool := false              -- reqSaved
-  flushq : List Nat := []         -- the chain r.flushreq → …, most recently chained first
+  flushreq : Option Nat := none   -- req.flushreq: head of the chain of flush requests (linked through their own flushreq)
   prev : Option Nat := none       -- req.prev: the next newer request with the same tag
   wpc : WPC := .queued
   noRun : Bool := false           -- ghost: a Tflush marked it flushed before it started
@@ -47,7 +47,8 @@ structure Inst where
   pc : IPC := .mark
   oldFl : Bool := false           -- status&reqFlush as read at the mark
   nxt : Option Nat := none        -- nextreq
-  fls : List Nat := []            -- flushreqs still to answer
+  cur : Option Nat := none        -- freq, the cursor of the loop over flushreqs
+  sp : Bool := false              -- freq.Respond() has been called, freq = freq.flushreq has not
   deriving Repr
 
 structure LS where
@@ -151,8 +152,9 @@ def LS.step (s : LS) : Ev → Option LS
         | none => some { s with req := upd s.req f { q with wpc := .fl1 none } }
         | some t =>
           -- f.flushreq = t.flushreq; t.flushreq = f
-          let req1 := upd s.req t { s.req t with flushq := f :: (s.req t).flushq }
-          some { s with req := upd req1 f { req1 f with wpc := .fl1 (some t) } }
+          let req1 := upd s.req f { q with flushreq := (s.req t).flushreq }
+          let req2 := upd req1 t { req1 t with flushreq := some f }
+          some { s with req := upd req2 f { req2 f with wpc := .fl1 (some t) } }
     else none
   | .flushMark f =>
     if f < s.n then
@@ -194,17 +196,19 @@ def LS.step (s : LS) : Ev → Option LS
         match q.prev with
         | none =>        -- delete(conn.reqs, tag); flushreqs = req.flushreq
           some { s with chain := updL s.chain q.tag [],
-                        insts := setInst s.insts i { it with pc := .next, nxt := none, fls := q.flushq } }
-        | some m =>      -- nextreq.next = nil
+                        insts := setInst s.insts i { it with pc := .next, nxt := none, cur := q.flushreq } }
+        | some m =>      -- nextreq.next = nil; flushreqs = nil
           let chain' := updL s.chain q.tag (cutAfter m (s.chain q.tag))
-          if q.flushq.isEmpty then
-            some { s with chain := chain', insts := setInst s.insts i { it with pc := .next, nxt := some m, fls := [] } }
-          else if (s.req m).flushq.isEmpty then
-            some { s with chain := chain', req := upd s.req m { s.req m with flushq := q.flushq },
-                          insts := setInst s.insts i { it with pc := .next, nxt := some m, fls := [] } }
-          else
-            -- `nextreq = req.flushreq`: the code restarts the flush request instead of the neighbour
-            some { s with chain := chain', insts := setInst s.insts i { it with pc := .next, nxt := q.flushq.head?, fls := [] } }
+          match q.flushreq with
+          | none =>
+            some { s with chain := chain', insts := setInst s.insts i { it with pc := .next, nxt := some m, cur := none } }
+          | some fr =>
+            if (s.req m).flushreq = none then   -- move them to the next request
+              some { s with chain := chain', req := upd s.req m { s.req m with flushreq := some fr },
+                            insts := setInst s.insts i { it with pc := .next, nxt := some m, cur := none } }
+            else
+              -- `nextreq = req.flushreq`: the code restarts the flush request instead of the neighbour
+              some { s with chain := chain', insts := setInst s.insts i { it with pc := .next, nxt := some fr, cur := none } }
       else none
     | none => none
   | .post i =>
@@ -232,13 +236,15 @@ def LS.step (s : LS) : Ev → Option LS
       else none
     | none => none
   | .flushes i =>
+    -- for freq := flushreqs; freq != nil; freq = freq.flushreq { freq.Respond() }
     match s.insts[i]? with
     | some it =>
       if it.pc = .flushes then
-        match it.fls with
-        | [] => some { s with insts := setInst s.insts i { it with pc := .done } }
-        | f :: rest =>     -- freq.Respond()
-          some { s with insts := setInst (s.insts ++ [{ rid := f }]) i { it with fls := rest } }
+        match it.cur with
+        | none => some { s with insts := setInst s.insts i { it with pc := .done } }
+        | some f =>
+          if it.sp then some { s with insts := setInst s.insts i { it with cur := (s.req f).flushreq, sp := false } }
+          else some { s with insts := setInst (s.insts ++ [{ rid := f }]) i { it with sp := true } }
       else none
     | none => none
   | .send =>
